@@ -73,8 +73,13 @@ Value& RAWExpression::value(Context & ctx) const
           v = *a1.integer();
           break;
         case Type::NUMERIC:
-          v = Integer(*a1.numeric());
+        {
+          Numeric d = *a1.numeric();
+          if (!(d >= 0.0 && d < 256.0))
+            throw RuntimeError(EXC_RT_OUT_OF_RANGE);
+          v = static_cast<Integer>(d);
           break;
+        }
         default:
           throw RuntimeError(EXC_RT_FUNC_ARG_TYPE_S, KEYWORDS[FUNC_RAW]);
         }
